@@ -45,6 +45,15 @@ type JournalRecord struct {
 // the offset where decoding stopped and whether the stream was clean (ended
 // exactly at a record boundary, ignoring block trailer padding).
 func Journal(data []byte) (recs []JournalRecord, stop int, clean bool) {
+	recs, stop, clean, inRec, start := journal(data)
+	if inRec {
+		// stopped inside a multi-chunk record: resume at its first chunk
+		stop = start
+	}
+	return recs, stop, clean
+}
+
+func journal(data []byte) (recs []JournalRecord, stop int, clean bool, inRec bool, recStart int) {
 	pos := 0
 	var cur []byte
 	start := 0
@@ -61,51 +70,51 @@ func Journal(data []byte) (recs []JournalRecord, stop int, clean bool) {
 						allZero = false
 					}
 				}
-				return recs, pos, !in && allZero
+				return recs, pos, !in && allZero, in, start
 			}
 			pos += left
 			continue
 		}
 		if pos == len(data) {
-			return recs, pos, !in
+			return recs, pos, !in, in, start
 		}
 		if pos+headerSize > len(data) {
-			return recs, pos, false
+			return recs, pos, false, in, start
 		}
 		sum := binary.LittleEndian.Uint32(data[pos:])
 		ln := int(binary.LittleEndian.Uint16(data[pos+4:]))
 		typ := data[pos+6]
 		if pos+headerSize+ln > len(data) || headerSize+ln > left {
-			return recs, pos, false
+			return recs, pos, false, in, start
 		}
 		if typ < chFull || typ > chLast {
-			return recs, pos, false
+			return recs, pos, false, in, start
 		}
 		payload := data[pos+headerSize : pos+headerSize+ln]
 		if MaskedCRC(data[pos+6:pos+7], payload) != sum {
-			return recs, pos, false
+			return recs, pos, false, in, start
 		}
 		switch typ {
 		case chFull:
 			if in {
-				return recs, pos, false
+				return recs, pos, false, in, start
 			}
 			recs = append(recs, JournalRecord{Data: append([]byte(nil), payload...), Start: pos, End: pos + headerSize + ln})
 		case chFirst:
 			if in {
-				return recs, pos, false
+				return recs, pos, false, in, start
 			}
 			in = true
 			start = pos
 			cur = append([]byte(nil), payload...)
 		case chMiddle:
 			if !in {
-				return recs, pos, false
+				return recs, pos, false, in, start
 			}
 			cur = append(cur, payload...)
 		case chLast:
 			if !in {
-				return recs, pos, false
+				return recs, pos, false, in, start
 			}
 			cur = append(cur, payload...)
 			recs = append(recs, JournalRecord{Data: cur, Start: start, End: pos + headerSize + ln})
